@@ -11,6 +11,7 @@ from mc.engine.report import Violation
 from mc.engine.seams import reset_library, new_model
 
 import ECAgent.Core as Core
+from ECAgent.Collectors import Collector
 
 META = {
     'rule': 'full product of base priority vectors x actor position x timestep x action (thorough: x second action); '
@@ -86,6 +87,36 @@ def scenarios(tier):
                     if act['kind'] in ('replace', 'readd'):
                         yield {'leg': 'eq_by_value', 'prios': v, 't': t, 'acts': [dict(act, actor=actor)],
                                'eq_by_value': True}
+    # collectors among the systems: the target of the action, or every system, is a collector
+    for v in vectors(3):
+        n = len(v)
+        for t in (0, 1):
+            for actor in range(n):
+                for act in actions_for(n, actor):
+                    tgt = act.get('target', actor)
+                    for coll in ([tgt], list(range(n))):
+                        yield {'leg': 'collector_kind', 'prios': v, 't': t, 'acts': [dict(act, actor=actor)],
+                               'collectors': coll}
+    # a system with a finite window is acted upon in its last eligible timestep (end == t) and in the first timestep
+    # after it (end == t - 1); one more timestep is run to see what became of a replacement
+    for v in vectors(3):
+        n = len(v)
+        for actor in range(n):
+            for act in actions_for(n, actor):
+                if 'target' in act and act['target'] != actor:
+                    for end in (0, 1):
+                        yield {'leg': 'finite_end', 'prios': v, 't': 1, 'acts': [dict(act, actor=actor)],
+                               'ends': {str(act['target']): end}, 'steps': 4}
+    # one extra object N registered / removed by two actors at up to three points of a five-timestep run
+    moves = [(t, a, k) for t in (0, 1, 2) for a in (0, 1) for k in ('addN', 'removeN')]
+    seqs = [[m] for m in moves] + [[m1, m2] for m1 in moves for m2 in moves if m1[0] <= m2[0] and m1 != m2]
+    seqs += [[m1, m2, m3] for m1 in moves for m2 in moves for m3 in moves
+             if m1[0] <= m2[0] <= m3[0] and len({m1, m2, m3}) == 3 and m1[2] == 'addN']
+    for v in ([1, 0], [1, 1]) if tier == 'quick' else ([1, 0], [1, 1], [0, 0, -1]):
+        for n_prio in (2, 0, -1):
+            for sq in seqs:
+                yield {'leg': 'shared_object', 'prios': v, 't': 0, 'n_prio': n_prio, 'steps': 5,
+                       'acts': [{'kind': k, 'actor': a, 't': t} for t, a, k in sq]}
     # many systems (priority bands of ties): the acting system and its target at every band position
     big = [3] * 10 + [2] * 10 + [1] * 12 + [0] * 8
     for actor in (0, 5, 9, 10, 15, 21, 22, 31, 32, 39):
@@ -118,30 +149,57 @@ def run_scenario(case):
     seq = [0]
     reg = {}          # key -> (priority, registration sequence number) for currently registered systems
 
+    ends = {}         # key -> last eligible timestep, for systems with a finite window
+
+    def body(self):
+        if self.muted:
+            return
+        t_now = model.systems.timestep
+        if t_now not in starts:
+            starts[t_now] = dict(reg)      # registry at the start of this timestep (before any action in it)
+        events.append(('run', self.key))
+        stamps.append(t_now)
+        if len(events) > 60 + 3 * len(prios):     # make a runaway timestep visible instead of looping forever
+            raise Violation(f'timestep {model.systems.timestep} does not terminate: more than 60 events',
+                            expected='each system at most once', observed=events[:12] + ['...'])
+        now = [act for act in self.todo if act.get('t', t_act) == t_now]
+        if now:
+            if case.get('sandbox'):
+                run_sandbox()
+            for act in now:
+                perform(self, act)
+
     class S(Core.System):
         # key names the object (unique), id is what the scheduler sees (a replacement object reuses an id)
-        def __init__(self, key, sid, prio):
-            super().__init__(sid, model, priority=prio)
+        def __init__(self, key, sid, prio, end=None):
+            super().__init__(sid, model, priority=prio, **({} if end is None else {'end': end}))
             self.key = key
             self.todo = []
             self.muted = False
+            if end is not None:
+                ends[key] = end
 
-        def execute(self):
-            if self.muted:
-                return
-            t_now = model.systems.timestep
-            if t_now not in starts:
-                starts[t_now] = dict(reg)      # registry at the start of this timestep (before any action in it)
-            events.append(('run', self.key))
-            stamps.append(t_now)
-            if len(events) > 60 + 3 * len(prios):     # make a runaway timestep visible instead of looping forever
-                raise Violation(f'timestep {model.systems.timestep} does not terminate: more than 60 events',
-                                expected='each system at most once', observed=events[:12] + ['...'])
-            if model.systems.timestep == t_act:
-                if case.get('sandbox') and self.todo:
-                    run_sandbox()
-                for act in self.todo:
-                    perform(self, act)
+        execute = body
+
+    class SC(Collector):
+        """The same recorder as a collector (other base constructor; the library may treat collectors specially)."""
+
+        def __init__(self, key, sid, prio, end=None):
+            super().__init__(sid, model, priority=prio, **({} if end is None else {'end': end}))
+            self.key = key
+            self.todo = []
+            self.muted = False
+            if end is not None:
+                ends[key] = end
+
+        collect = body
+
+    coll_idx = set(case.get('collectors', ()))
+
+    def make(key, sid, prio, like=None, end=None):
+        cls = SC if (like is not None and isinstance(like, SC)) or (like is None and key.startswith('s') and
+                                                                    key[1:].isdigit() and int(key[1:]) in coll_idx) else S
+        return cls(key, sid, prio, end)
 
     def run_sandbox():
         # an independent little model is built and stepped from inside this system's turn
@@ -156,8 +214,9 @@ def run_scenario(case):
 
     if case.get('eq_by_value'):
         # system classes that compare by value (dataclass style): a replacement object equals the one it replaces
-        S.__eq__ = lambda a, b: isinstance(b, Core.System) and (a.id, a.priority) == (b.id, b.priority)
-        S.__hash__ = lambda a: hash((a.id, a.priority))
+        for cls in (S, SC):
+            cls.__eq__ = lambda a, b: isinstance(b, Core.System) and (a.id, a.priority) == (b.id, b.priority)
+            cls.__hash__ = lambda a: hash((a.id, a.priority))
 
     objs = {}
     byid = {}         # id -> key of the object currently registered under it
@@ -198,7 +257,7 @@ def run_scenario(case):
                 old = objs[byid[sid]]
                 unregister(sid)
                 key = f'r{len([k for k in objs if k.startswith("r")])}'
-                o = objs[key] = S(key, sid, old.priority)
+                o = objs[key] = make(key, sid, old.priority, like=old)
                 register(o)
                 events.append(('added', key))
         elif kind == 'reprio':
@@ -210,6 +269,14 @@ def run_scenario(case):
                 unregister(sid)
                 register(objs[key])
                 events.append(('added', key))
+        elif kind == 'addN':
+            # ONE extra object shared by all such actions: registered if it is not registered at the moment
+            if 'N' not in byid:
+                register(objs['N'])
+                events.append(('added', 'N'))
+        elif kind == 'removeN':
+            if 'N' in byid:
+                unregister('N')
         elif kind == 'add':
             key = f'n{len([k for k in objs if k.startswith("n")])}'
             o = objs[key] = S(key, key, act['prio'])
@@ -224,15 +291,18 @@ def run_scenario(case):
             register(o)
             events.append(('added', key))
 
+    case_ends = {int(k): v for k, v in case.get('ends', {}).items()}
     for i, p in enumerate(prios):
-        objs[f's{i}'] = S(f's{i}', f's{i}', p)
+        objs[f's{i}'] = make(f's{i}', f's{i}', p, end=case_ends.get(i))
+    if 'n_prio' in case:
+        objs['N'] = S('N', 'N', case['n_prio'])
     for i in range(len(prios)):
         register(objs[f's{i}'])
     for act in acts:
         objs[f's{act["actor"]}'].todo.append(act)
 
     trace = []
-    nsteps = 4 if len(prios) > 8 else 3
+    nsteps = case.get('steps', 4 if len(prios) > 8 else 3)
     if case.get('drive') == 'multi':
         # one call advances all timesteps; the event stream is cut into timesteps afterwards
         first_reg = dict(reg)
@@ -247,7 +317,7 @@ def run_scenario(case):
                 cuts[cur].append(e)
         for t in range(nsteps):
             trace.append(cuts[t])
-            judge(t, starts.get(t, first_reg if t == 0 else dict(reg)), cuts[t], None)
+            judge(t, starts.get(t, first_reg if t == 0 else dict(reg)), cuts[t], None, ends)
     else:
         for t in range(nsteps):
             start_reg = dict(reg)
@@ -255,14 +325,18 @@ def run_scenario(case):
             model.execute()
             ev = list(events)
             trace.append(ev)
-            judge(t, start_reg, ev, dict(reg))
-    if model.timestep != (4 if len(prios) > 8 else 3):
+            judge(t, start_reg, ev, dict(reg), ends)
+    if model.timestep != nsteps:
         raise Violation('clock differs from the number of steps', observed=model.timestep)
     return tuple(tuple(e) for ev in trace for e in ev)
 
 
-def judge(t, start_reg, ev, end_reg):
+def judge(t, start_reg, ev, end_reg, ends=None):
+    ends = ends or {}
     runs = [k for kind, k in ev if kind == 'run']
+    for k in runs:
+        if ends.get(k, t) < t:
+            raise Violation(f'timestep {t}: system {k} ran after its window had closed (end {ends[k]})', observed=ev)
     # 1. nothing runs twice
     for k in set(runs):
         if runs.count(k) > 1:
@@ -284,7 +358,7 @@ def judge(t, start_reg, ev, end_reg):
         elif kind == 'added':
             added.add(k)
     # 2. every system registered for the whole timestep runs exactly once
-    stable = [k for k in start_reg if k not in removed]
+    stable = [k for k in start_reg if k not in removed and ends.get(k, t) >= t]
     for k in stable:
         if k not in ran:
             raise Violation(f'timestep {t}: system {k} stayed registered for the whole timestep but was skipped',
@@ -297,7 +371,7 @@ def judge(t, start_reg, ev, end_reg):
                         observed=got_order)
     # 5. a timestep without any change is fully regular
     if not removed and not added:
-        full = sorted(start_reg, key=lambda k: (-start_reg[k][0], start_reg[k][1]))
+        full = sorted((k for k in start_reg if ends.get(k, t) >= t), key=lambda k: (-start_reg[k][0], start_reg[k][1]))
         if runs != full:
             raise Violation(f'timestep {t}: regular timestep differs from priority/registration order',
                             expected=full, observed=runs)
